@@ -205,6 +205,7 @@ func (b *built) Close() {
 type arrival struct {
 	replies  [][]byte
 	note     string // what happened before / instead of the handler
+	stray    int    // datagrams that were pending before this query was sent
 	framing  string // framing anomaly of the reply (length prefix, stray bytes, content type)
 	harness  string // non-empty: the harness could not observe (inconclusive)
 	fromUDP  bool
@@ -354,10 +355,14 @@ const settleMore = 2 * time.Millisecond  // "none other" window after the reply
 func (s *sockets) udp(qw []byte) arrival {
 	a := arrival{fromUDP: true}
 	s.hw.drain()
-	// stale datagrams would be attributed to this query: there must be none
-	if r := s.readUDP(time.Microsecond); r != nil {
-		a.replies = append(a.replies, r)
-		a.note = "datagram pending before the query was sent"
+	// a datagram that is already pending belongs to an earlier query (a late
+	// second reply); it must not be attributed to this one
+	for {
+		r := s.readUDP(time.Microsecond)
+		if r == nil {
+			break
+		}
+		a.stray++
 	}
 	if _, err := s.uc.Write(qw); err != nil {
 		a.harness = "udp client write: " + err.Error()
